@@ -8,7 +8,9 @@
 //!                           x a.l (drop whole log) | i(nsert) a.l.seq/size
 //!   have=0:0=3;1:0=5        c20: the scripted peer's Have
 //!   pops=2                  c20: operations the scripted peer sends (foreign author)
-//!   cap=3 ms=2500           c21: `futures::mpsc::channel(cap)` and the deadline
+//!   cap=3 ms=2500           c21 (and c19 cases over a small transport): `futures::mpsc::channel(cap)`
+//!                           and the no-progress deadline
+//! A row token `lo-hi/size` stands for the rows lo..=hi, all of that size.
 //!
 //! Authors are indices into a fixed key table sorted by verifying key, so that index order is the
 //! `BTreeMap<VerifyingKey, _>` order the code iterates in.
@@ -92,9 +94,15 @@ fn parse_rep(s: &str) -> Vec<(usize, usize, Vec<(u32, usize)>)> {
             let rows = rows
                 .split(',')
                 .filter(|x| !x.is_empty())
-                .map(|r| {
+                .flat_map(|r| {
+                    // `seq/size` or a run `lo-hi/size` (inclusive) of rows of one size
                     let (q, z) = r.split_once('/').expect("row");
-                    (num(q) as u32, num(z))
+                    let (lo, hi) = match q.split_once('-') {
+                        Some((lo, hi)) => (num(lo) as u32, num(hi) as u32),
+                        None => (num(q) as u32, num(q) as u32),
+                    };
+                    let z = num(z);
+                    (lo..=hi).map(move |s| (s, z))
                 })
                 .collect();
             (num(a), num(l), rows)
@@ -428,7 +436,13 @@ async fn pair(payload: &str, keys: Arc<Keys>, bounded: bool) -> String {
     };
     let rep_a = parse_rep(field(payload, "repa").unwrap_or("-"));
     let rep_b = parse_rep(field(payload, "repb").unwrap_or("-"));
-    let cap = if bounded { num(field(payload, "cap").unwrap_or("0")) } else { 16384 };
+    // c21: always a bounded transport; c19: unbounded in effect (16384 slots) unless the case
+    // names a capacity -- then the same exactness observation is taken over `channel(cap)`.
+    let cap = match field(payload, "cap") {
+        Some(c) => num(c),
+        None if bounded => 0,
+        None => 16384,
+    };
     let ms = num(field(payload, "ms").unwrap_or("20000")) as u64;
 
     let a = Side { store: SqliteStore::temporary().await, cfg: cfg_a };
